@@ -56,6 +56,43 @@ func verifDir() string {
 }
 
 // genAll generates the VCs of every function under contract.
+// missingFunc turns a contract whose function no longer exists (renamed,
+// removed, inlined) into an undischarged obligation of the properties the
+// contract is tagged with (and of C03/C14, which cover every function): what
+// the contract stated can no longer be shown.
+func (P *Program) missingFunc(k string, fc *FuncContract) *Obligation {
+	props := map[string]bool{"C03": true, "C14": true}
+	all := append(append([]*Clause{}, fc.Requires...), fc.Ensures...)
+	for _, cs := range fc.Loops {
+		all = append(all, cs...)
+	}
+	for _, a := range fc.Asserts {
+		all = append(all, a.C)
+	}
+	for _, c := range all {
+		for _, p := range c.Props {
+			props[p] = true
+		}
+	}
+	if fc.Opts["det"] != "" {
+		props["C06"] = true
+	}
+	var pl []string
+	for p := range props {
+		pl = append(pl, p)
+	}
+	sort.Strings(pl)
+	short := k
+	if i := strings.LastIndex(k, "/"); i >= 0 {
+		short = k[i+1:]
+	}
+	if i := strings.Index(short, "."); i >= 0 {
+		short = short[i+1:]
+	}
+	return &Obligation{Name: short + "/contract:applies", Class: "contract", Props: pl, Func: k, static: true,
+		staticFail: fmt.Sprintf("the function %s named by the contract at %s:%d no longer exists (renamed, removed or inlined): its contract cannot be checked", k, fc.File, fc.Line)}
+}
+
 func genAll(P *Program, only string, wanted map[string]bool) ([]*VC, []string) {
 	var vcs []*VC
 	var errs []string
@@ -73,7 +110,7 @@ func genAll(P *Program, only string, wanted map[string]bool) ([]*VC, []string) {
 			// call-site specific contract: used where that caller calls it
 			base := k[:strings.LastIndex(k, "@")]
 			if P.funcs[base] == nil {
-				errs = append(errs, fmt.Sprintf("contract %s (%s:%d) names a function that does not exist", k, fc.File, fc.Line))
+				P.missing = append(P.missing, P.missingFunc(k, fc))
 			} else if fc.Opts["assumed"] != "" {
 				P.assumed = append(P.assumed, k)
 			}
@@ -81,7 +118,7 @@ func genAll(P *Program, only string, wanted map[string]bool) ([]*VC, []string) {
 		}
 		fn := P.funcs[k]
 		if fn == nil {
-			errs = append(errs, fmt.Sprintf("contract %s (%s:%d) names a function that does not exist", k, fc.File, fc.Line))
+			P.missing = append(P.missing, P.missingFunc(k, fc))
 			continue
 		}
 		if only != "" && !strings.Contains(k, only) {
@@ -316,6 +353,14 @@ func cmdCheck(args []string) int {
 		}
 	}
 	obs = append(obs, lemObs...)
+	for _, ob := range P.missing {
+		for _, p := range ob.Props {
+			if (p == *prop || *prop == "") && (*only == "" || strings.Contains(ob.Func, *only)) {
+				obs = append(obs, ob)
+				break
+			}
+		}
+	}
 	if (*prop == "C06" || *prop == "C14" || *prop == "") && *only == "" {
 		for _, ob := range P.sweepObligations() {
 			for _, p := range ob.Props {
@@ -395,7 +440,7 @@ func cmdCheck(args []string) int {
 	}
 	for _, ob := range obs {
 		for _, k := range known {
-			if k.Status == "open" && (k.Property == *prop || k.Property == "*") && k.Obligation == ob.Name {
+			if k.Status == "open" && (k.Property == *prop || k.Property == "*" || *prop == "") && k.Obligation == ob.Name {
 				ob.ShortLimit = true // expected to stay undischarged
 			}
 		}
@@ -427,7 +472,7 @@ func cmdCheck(args []string) int {
 	for _, r := range failed {
 		isKnown := false
 		for _, k := range known {
-			if k.Status == "open" && (k.Property == *prop || k.Property == "*") && k.Obligation == r.Ob.Name {
+			if k.Status == "open" && (k.Property == *prop || k.Property == "*" || *prop == "") && k.Obligation == r.Ob.Name {
 				fmt.Printf("KNOWN-FINDING: property=%s %s (%s; input: %s)\n", *prop, r.Ob.Name, k.What, k.Input)
 				isKnown = true
 				knownHit++
